@@ -74,11 +74,17 @@ def _case(draw):
                 # same link file or in '.Links' (which sorts before '.names'): hidden stays hidden
                 h.append(draw(st.sampled_from([None, None, "before", "after", "other-file"])))
             hide.append(h)
+    # entries that keep being listed but carry a .cap file of their own (a title): every .cap file is applied to its own entry
+    capnames = []
+    if handler == "umn":
+        rest = [n.rstrip("/") for n in names if not n.startswith(".") and n.rstrip("/") not in [h[0] for h in hide] and n != "selfloop"]
+        if rest:
+            capnames = draw(st.lists(st.sampled_from(rest), max_size=2, unique=True))
     # two link files that each ADD an entry, the two tying on title and number: their relative order must not depend on which
     # link file the OS happens to enumerate first
     ties = draw(st.sampled_from([0, 0, 0, 2, 3])) if handler == "umn" else 0
     k = len(names) + 5 + ties
-    return {"names": names, "parent": draw(st.sampled_from(PARENTS)), "handler": handler, "hide": hide, "ties": ties, "patt": patt,
+    return {"names": names, "parent": draw(st.sampled_from(PARENTS)), "handler": handler, "hide": hide, "ties": ties, "patt": patt, "capnames": capnames,
             "perm1": draw(st.permutations(list(range(k)))), "perm2": draw(st.permutations(list(range(k)))),
             "form2": draw(st.sampled_from(["http", "gemini", "gdollar", "wap", "spartan"]))}
 
@@ -162,6 +168,8 @@ def _spec(case):
     if names_blocks:
         spec.append([pre + ".names", "f", "\n".join(names_blocks)])
         content[".names"] = "\n".join(names_blocks)
+    for i, n in enumerate(case.get("capnames", [])):
+        spec.append([pre + ".cap/" + n, "f", "Name=Title %d\n" % i])
     if links_blocks:
         spec.append([pre + ".Links", "f", "\n".join(links_blocks)])
         content[".Links"] = "\n".join(links_blocks)
